@@ -346,8 +346,8 @@ func checkDiff(c DiffCase) error {
 		if d := cmp.OSMDiff(g.New, a.New); d != "" {
 			return harness.Failf("C04/diff-roundtrip", "%s action %d new: %s\n%s", a.Type, i, d, data)
 		}
-		all = append(all, a.Old...)
-		all = append(all, a.New...)
+		all = append(all, containerOrder(a.Old)...)
+		all = append(all, containerOrder(a.New)...)
 	}
 	if len(back.Changesets) != len(c.Changesets) {
 		return harness.Failf("C04/diff-roundtrip", "%d changesets after the round trip, %d before", len(back.Changesets), len(c.Changesets))
@@ -367,9 +367,9 @@ func checkDiff(c DiffCase) error {
 func TestDiffContainer(t *testing.T) {
 	harness.Run(t, harness.Spec[DiffCase]{
 		Name: "diff-container", N: 2000,
-		Rule: "osm.Diff values: create actions with exactly one element, modify/delete actions with old and new, optional changesets; oracle = round trip equals the model action by action, scanner reads the text back in document order; non-trivial = >= 2 actions of different types",
+		Rule: "osm.Diff values: create actions with exactly one element, modify/delete actions with old and new (a third of them also carrying bounds, changesets, notes, users), optional changesets; oracle = round trip equals the model action by action, scanner reads the text back in document order; non-trivial = >= 2 actions of different types",
 		Gen: func(t *rapid.T) DiffCase {
-			c := DiffCase{Doc: osmdoc.GenDiff(t, osmdoc.GenOpt{})}
+			c := DiffCase{Doc: osmdoc.GenDiffRich(t, osmdoc.GenOpt{})}
 			if rapid.IntRange(0, 2).Draw(t, "cs") == 0 {
 				c.Changesets = osmdoc.GenItems(t, osmdoc.GenOpt{}, "c", 2)
 			}
